@@ -112,6 +112,8 @@ func Authenticate(a AuthSpec) (msg, blob, proof []byte) {
 	dom, usr, ws := utf16le(a.Domain), utf16le(a.User), utf16le(a.Workstation)
 	hdr := 88
 	switch a.Layout {
+	case "v1": // the oldest form: no session key, no flags, no version - the payload follows the workstation field
+		hdr = 52
 	case "short":
 		hdr = 64
 	case "nomic":
@@ -132,6 +134,14 @@ func Authenticate(a AuthSpec) (msg, blob, proof []byte) {
 	field(44, ws)
 	field(12, lm)
 	field(20, nt)
+	if a.Layout == "v1" {
+		b = append(b, dom...)
+		b = append(b, usr...)
+		b = append(b, ws...)
+		b = append(b, lm...)
+		b = append(b, nt...)
+		return b, blob, proof
+	}
 	field(52, nil) // no encrypted session key
 	flags := uint32(0x00000001 | 0x00000200 | 0x00008000 | 0x00080000 | 0x02000000 | 0x20000000 | 0x80000000)
 	if a.Layout == "noversion" || a.Layout == "short" {
